@@ -579,7 +579,8 @@ def judge(rec, obs):
         allfeat |= set(e["feat"])
     if obs["error"]:
         mode, text = obs["error"]
-        named = [e for e in rec["expect"] if re.search(r"(?<![A-Za-z0-9_])" + re.escape(e["sym"]) + r"(?![A-Za-z0-9_])", text, re.I if be == "fortran" else 0)]
+        code = re.sub(r'"[^"\n]*"', '""', text)                      # symbols are looked for outside string literals
+        named = [e for e in rec["expect"] if re.search(r"(?<![A-Za-z0-9_])" + re.escape(e["sym"]) + r"(?![A-Za-z0-9_])", code, re.I if be == "fortran" else 0)]
         if mode == "compile" and named and len(rec["expect"]) > 1:
             for e in rec["expect"]:
                 if e in named:
